@@ -69,6 +69,11 @@ class Checker:
             self._add_builtin(self.bt.get_function_type(n))
         decls=list(program.context.get_declarations(('global',),only_current=True).values())
         self.globals={}
+        usernames={d.name for d in decls if isinstance(d, ast.ClassDeclaration)}
+        from mc import irwalk
+        for _,o in irwalk.walk(decls):
+            if isinstance(o, tp.ParameterizedType) and o.name not in usernames and o.name not in self.tb.cls:
+                self._add_builtin(o.t_constructor)
         for d in decls:
             if isinstance(d, ast.ClassDeclaration):
                 self.classes[d.name]=d
@@ -85,6 +90,13 @@ class Checker:
         if isinstance(b, tp.TypeConstructor):
             if b.name in self.tb.cls: return
             self.tb.add(b.name,[(p.name,VARN[p.variance.value],None) for p in b.type_parameters],[('c',self.top,())])
+            # declared supertypes of a builtin constructor (Scala: Seq/Array/FunctionN extend AnyRef)
+            sup=[]
+            for s in (b.supertypes or []):
+                if isinstance(s, tp.Builtin):
+                    self._add_builtin(s); sup.append(('c',s.name,()))
+            if sup:
+                self.tb.add(b.name,[(p.name,VARN[p.variance.value],None) for p in b.type_parameters],sup)
             return
         if b.name in self.tb.cls: return
         sup=[]
@@ -509,7 +521,24 @@ class Checker:
         # args
         ps=list(fdecl.params); args=list(e.args)
         named={a.name for a in args if a.name}
-        req=[p for p in ps if p.default is None and not p.vararg]
+        # default values are inherited by overriding declarations (Kotlin, Scala; Groovy through the generated
+        # overloads of the base class): a parameter is optional if any declaration of the method in the
+        # receiver's hierarchy gives it a default
+        inherited=set()
+        owner=None
+        if e.receiver is not None:
+            owner=d
+        else:
+            s_=sc
+            while s_ is not None and owner is None:
+                owner=s_.cls
+                s_=s_.parent
+        if owner is not None:
+            for (f2,_m,_c) in self.members(owner.name,'functions'):
+                if f2.name==fdecl.name and len(f2.params)==len(ps):
+                    for i2,p2 in enumerate(f2.params):
+                        if p2.default is not None: inherited.add(i2)
+        req=[p for i2,p in enumerate(ps) if p.default is None and not p.vararg and i2 not in inherited]
         pos=[a for a in args if not a.name]
         if ps and ps[-1].vararg:
             if len(pos)<len(ps)-1-sum(1 for p in ps[:-1] if p.default is not None): self.alarm('call-arity',path,None,None,e.func)
